@@ -2,6 +2,16 @@
 """Adds the 'needs' text to seeded/*/meta.json (from the table below) and regenerates seeded/README.md."""
 import json, os, glob
 NEEDS = {
+ 'C01d-plus-side-start-from-minus-count': 'a -R entry whose diff was made with context 0 and has a deletion-only hunk below the top of the file',
+ 'C03d-addition-keeps-suffix-context': 'a hunk with two change groups the last of which only adds lines, followed by a hunk whose leading context overlaps its tail (or --fuzz 2)',
+ 'C04d-run-ahead-patches-undone-oldest-first': '--threads >= 2, a failing patch, and a worker already two or more patches behind it on one file (or a rename chain)',
+ 'C07d-strip-skipped-for-p0-again': 'a -p0 entry spelling a file ./name and another entry spelling it plainly, in one push (same change as C16d)',
+ 'C10d-no-link-check-in-dry-run': '--dry-run on a tree with a symbolic link leading out of it that a patch goes through',
+ 'C11d-zone-guard-on-the-wrong-slice': 'a ---/+++ line with a full time stamp followed by a sign and exactly two characters (2024-05-06 07:08:09+02)',
+ 'C12d-empty-unterminated-line-written-bare': 'a hunk line that is empty and carries the no-newline tag',
+ 'C15d-rename-undo-forgets-the-file-existed': 'a git rename applied and rolled back (its hunk fails, or a worker ran ahead) on a file an earlier applied patch changed and that has another hard link',
+ 'C18d-unlink-failure-dropped': 'a failing unlink of a file the push deletes (or, with --mmap, changes)',
+ 'C20d-frozen-line-from-the-fuzz-limit': 'two overlapping hunks, the first with less leading than trailing context, and a fuzz limit above the level the first hunk needs',
  'C02d-length-guard-hoisted-out-of-the-fuzz-loop': '--fuzz >= 1 and a file with fewer lines than the whole old side of a hunk that fits once its ends are trimmed',
  'C05d-refused-rename-puts-content-into-the-wrong-file': 'a git rename onto an existing non-empty file (refused) whose source an earlier patch of the same push touched: the source is deleted',
  'C06d-erring-workers-state-dropped': 'a failing patch on one worker, a load error in a later patch on another worker that has applied earlier patches, and the second worker getting there first',
